@@ -11,6 +11,7 @@ RULE = ("a scripted environment (rewards, terminations, truncations and both-at-
         "compared with graph.step(gs, step_state, get_output(action)); one evaluation = one wrapper stack x script history (or one batch of "
         "squash values); non-trivial = history with >=1 termination-only, >=1 truncation-only end and >=3 episode ends; distinct by script "
         "digest x stack")
+RULE += " Built later: integer-typed action bounds; an Environment whose pre-step hook edits the supervisor's own state."
 MIN_NONTRIVIAL = {"quick": 20, "thorough": 400}
 DECIDING = ["steps_checked", "episode_ends_checked"]
 ASSUMPTIONS = ["unsquash may overshoot a bound by <= 2 ulp (float32 rounding of 0.5*(tanh+1)*(high-low)+low); running mean within 5e-3 std and variance "
